@@ -328,7 +328,7 @@ pub(crate) mod verif_logic {
     //@ob name=C05.or.2.NR harness=k_c05_or_2_NR props=C05,C04 tier=quick strength=bounded bound="2 operands; outcome pattern NR (E=evaluation error, N=new value, R=raw value, P=does not parse); truthiness of every value symbolic" fns=op::logic::or stubs=4 timeout=300 cutdrop=1 group=medium
     //@ desc="or over 2 operands: result (the deciding operand's value itself, or error/null) and the exact evaluation log (which operands, in which order, each at most once, against the outer data) equal the spec; an operand that is not needed has no effect even if it is invalid; the parser is applied to rule text only"
     lazy_harness!(k_c05_or_2_NR, 2, 9, body_or);
-    //@ob name=C05.or.2.NP harness=k_c05_or_2_NP props=C05,C04 tier=quick strength=bounded bound="2 operands; outcome pattern NP (E=evaluation error, N=new value, R=raw value, P=does not parse); truthiness of every value symbolic" fns=op::logic::or stubs=4 timeout=300 cutdrop=1 group=medium
+    //@ob name=C05.or.2.NP harness=k_c05_or_2_NP props=C05,C04 tier=off strength=bounded bound="2 operands; outcome pattern NP (E=evaluation error, N=new value, R=raw value, P=does not parse); truthiness of every value symbolic" fns=op::logic::or stubs=4 timeout=300 cutdrop=1 group=medium
     //@ desc="or over 2 operands: result (the deciding operand's value itself, or error/null) and the exact evaluation log (which operands, in which order, each at most once, against the outer data) equal the spec; an operand that is not needed has no effect even if it is invalid; the parser is applied to rule text only"
     lazy_harness!(k_c05_or_2_NP, 2, 13, body_or);
     //@ob name=C05.or.3.NRE harness=k_c05_or_3_NRE props=C05,C04 tier=thorough strength=bounded bound="3 operands; outcome pattern NRE (E=evaluation error, N=new value, R=raw value, P=does not parse); truthiness of every value symbolic" fns=op::logic::or stubs=4 timeout=300 cutdrop=1 group=medium
@@ -343,7 +343,7 @@ pub(crate) mod verif_logic {
     //@ob name=C05.or.3.NRN harness=k_c05_or_3_NRN props=C05,C04 tier=quick strength=bounded bound="3 operands; outcome pattern NRN (E=evaluation error, N=new value, R=raw value, P=does not parse); truthiness of every value symbolic" fns=op::logic::or stubs=4 timeout=300 cutdrop=1 group=medium
     //@ desc="or over 3 operands: result (the deciding operand's value itself, or error/null) and the exact evaluation log (which operands, in which order, each at most once, against the outer data) equal the spec; an operand that is not needed has no effect even if it is invalid; the parser is applied to rule text only"
     lazy_harness!(k_c05_or_3_NRN, 3, 25, body_or);
-    //@ob name=C05.or.3.NNP harness=k_c05_or_3_NNP props=C05,C04 tier=quick strength=bounded bound="3 operands; outcome pattern NNP (E=evaluation error, N=new value, R=raw value, P=does not parse); truthiness of every value symbolic" fns=op::logic::or stubs=4 timeout=300 cutdrop=1 group=medium
+    //@ob name=C05.or.3.NNP harness=k_c05_or_3_NNP props=C05,C04 tier=off strength=bounded bound="3 operands; outcome pattern NNP (E=evaluation error, N=new value, R=raw value, P=does not parse); truthiness of every value symbolic" fns=op::logic::or stubs=4 timeout=300 cutdrop=1 group=medium
     //@ desc="or over 3 operands: result (the deciding operand's value itself, or error/null) and the exact evaluation log (which operands, in which order, each at most once, against the outer data) equal the spec; an operand that is not needed has no effect even if it is invalid; the parser is applied to rule text only"
     lazy_harness!(k_c05_or_3_NNP, 3, 53, body_or);
     //@ob name=C05.or.4.NRNE harness=k_c05_or_4_NRNE props=C05,C04 tier=thorough strength=bounded bound="4 operands; outcome pattern NRNE (E=evaluation error, N=new value, R=raw value, P=does not parse); truthiness of every value symbolic" fns=op::logic::or stubs=4 timeout=300 cutdrop=1 group=medium
@@ -394,7 +394,7 @@ pub(crate) mod verif_logic {
     //@ob name=C05.and.2.NR harness=k_c05_and_2_NR props=C05,C04 tier=quick strength=bounded bound="2 operands; outcome pattern NR (E=evaluation error, N=new value, R=raw value, P=does not parse); truthiness of every value symbolic" fns=op::logic::and stubs=4 timeout=300 cutdrop=1 group=medium
     //@ desc="and over 2 operands: result (the deciding operand's value itself, or error/null) and the exact evaluation log (which operands, in which order, each at most once, against the outer data) equal the spec; an operand that is not needed has no effect even if it is invalid; the parser is applied to rule text only"
     lazy_harness!(k_c05_and_2_NR, 2, 9, body_and);
-    //@ob name=C05.and.2.NP harness=k_c05_and_2_NP props=C05,C04 tier=quick strength=bounded bound="2 operands; outcome pattern NP (E=evaluation error, N=new value, R=raw value, P=does not parse); truthiness of every value symbolic" fns=op::logic::and stubs=4 timeout=300 cutdrop=1 group=medium
+    //@ob name=C05.and.2.NP harness=k_c05_and_2_NP props=C05,C04 tier=off strength=bounded bound="2 operands; outcome pattern NP (E=evaluation error, N=new value, R=raw value, P=does not parse); truthiness of every value symbolic" fns=op::logic::and stubs=4 timeout=300 cutdrop=1 group=medium
     //@ desc="and over 2 operands: result (the deciding operand's value itself, or error/null) and the exact evaluation log (which operands, in which order, each at most once, against the outer data) equal the spec; an operand that is not needed has no effect even if it is invalid; the parser is applied to rule text only"
     lazy_harness!(k_c05_and_2_NP, 2, 13, body_and);
     //@ob name=C05.and.3.NRE harness=k_c05_and_3_NRE props=C05,C04 tier=thorough strength=bounded bound="3 operands; outcome pattern NRE (E=evaluation error, N=new value, R=raw value, P=does not parse); truthiness of every value symbolic" fns=op::logic::and stubs=4 timeout=300 cutdrop=1 group=medium
@@ -409,7 +409,7 @@ pub(crate) mod verif_logic {
     //@ob name=C05.and.3.NRN harness=k_c05_and_3_NRN props=C05,C04 tier=quick strength=bounded bound="3 operands; outcome pattern NRN (E=evaluation error, N=new value, R=raw value, P=does not parse); truthiness of every value symbolic" fns=op::logic::and stubs=4 timeout=300 cutdrop=1 group=medium
     //@ desc="and over 3 operands: result (the deciding operand's value itself, or error/null) and the exact evaluation log (which operands, in which order, each at most once, against the outer data) equal the spec; an operand that is not needed has no effect even if it is invalid; the parser is applied to rule text only"
     lazy_harness!(k_c05_and_3_NRN, 3, 25, body_and);
-    //@ob name=C05.and.3.NNP harness=k_c05_and_3_NNP props=C05,C04 tier=quick strength=bounded bound="3 operands; outcome pattern NNP (E=evaluation error, N=new value, R=raw value, P=does not parse); truthiness of every value symbolic" fns=op::logic::and stubs=4 timeout=300 cutdrop=1 group=medium
+    //@ob name=C05.and.3.NNP harness=k_c05_and_3_NNP props=C05,C04 tier=off strength=bounded bound="3 operands; outcome pattern NNP (E=evaluation error, N=new value, R=raw value, P=does not parse); truthiness of every value symbolic" fns=op::logic::and stubs=4 timeout=300 cutdrop=1 group=medium
     //@ desc="and over 3 operands: result (the deciding operand's value itself, or error/null) and the exact evaluation log (which operands, in which order, each at most once, against the outer data) equal the spec; an operand that is not needed has no effect even if it is invalid; the parser is applied to rule text only"
     lazy_harness!(k_c05_and_3_NNP, 3, 53, body_and);
     //@ob name=C05.and.4.NRNE harness=k_c05_and_4_NRNE props=C05,C04 tier=thorough strength=bounded bound="4 operands; outcome pattern NRNE (E=evaluation error, N=new value, R=raw value, P=does not parse); truthiness of every value symbolic" fns=op::logic::and stubs=4 timeout=300 cutdrop=1 group=medium
@@ -463,7 +463,7 @@ pub(crate) mod verif_logic {
     //@ob name=C05.if.2.NR harness=k_c05_if_2_NR props=C05,C04 tier=quick strength=bounded bound="2 operands; outcome pattern NR (E=evaluation error, N=new value, R=raw value, P=does not parse); truthiness of every value symbolic" fns=op::logic::if_ stubs=4 timeout=300 cutdrop=1 group=medium
     //@ desc="if over 2 operands: result (the deciding operand's value itself, or error/null) and the exact evaluation log (which operands, in which order, each at most once, against the outer data) equal the spec; an operand that is not needed has no effect even if it is invalid; the parser is applied to rule text only"
     lazy_harness!(k_c05_if_2_NR, 2, 9, body_if);
-    //@ob name=C05.if.2.NP harness=k_c05_if_2_NP props=C05,C04 tier=quick strength=bounded bound="2 operands; outcome pattern NP (E=evaluation error, N=new value, R=raw value, P=does not parse); truthiness of every value symbolic" fns=op::logic::if_ stubs=4 timeout=300 cutdrop=1 group=medium
+    //@ob name=C05.if.2.NP harness=k_c05_if_2_NP props=C05,C04 tier=off strength=bounded bound="2 operands; outcome pattern NP (E=evaluation error, N=new value, R=raw value, P=does not parse); truthiness of every value symbolic" fns=op::logic::if_ stubs=4 timeout=300 cutdrop=1 group=medium
     //@ desc="if over 2 operands: result (the deciding operand's value itself, or error/null) and the exact evaluation log (which operands, in which order, each at most once, against the outer data) equal the spec; an operand that is not needed has no effect even if it is invalid; the parser is applied to rule text only"
     lazy_harness!(k_c05_if_2_NP, 2, 13, body_if);
     //@ob name=C05.if.3.NRE harness=k_c05_if_3_NRE props=C05,C04 tier=thorough strength=bounded bound="3 operands; outcome pattern NRE (E=evaluation error, N=new value, R=raw value, P=does not parse); truthiness of every value symbolic" fns=op::logic::if_ stubs=4 timeout=300 cutdrop=1 group=medium
@@ -478,7 +478,7 @@ pub(crate) mod verif_logic {
     //@ob name=C05.if.3.NRN harness=k_c05_if_3_NRN props=C05,C04 tier=quick strength=bounded bound="3 operands; outcome pattern NRN (E=evaluation error, N=new value, R=raw value, P=does not parse); truthiness of every value symbolic" fns=op::logic::if_ stubs=4 timeout=300 cutdrop=1 group=medium
     //@ desc="if over 3 operands: result (the deciding operand's value itself, or error/null) and the exact evaluation log (which operands, in which order, each at most once, against the outer data) equal the spec; an operand that is not needed has no effect even if it is invalid; the parser is applied to rule text only"
     lazy_harness!(k_c05_if_3_NRN, 3, 25, body_if);
-    //@ob name=C05.if.3.NNP harness=k_c05_if_3_NNP props=C05,C04 tier=quick strength=bounded bound="3 operands; outcome pattern NNP (E=evaluation error, N=new value, R=raw value, P=does not parse); truthiness of every value symbolic" fns=op::logic::if_ stubs=4 timeout=300 cutdrop=1 group=medium
+    //@ob name=C05.if.3.NNP harness=k_c05_if_3_NNP props=C05,C04 tier=off strength=bounded bound="3 operands; outcome pattern NNP (E=evaluation error, N=new value, R=raw value, P=does not parse); truthiness of every value symbolic" fns=op::logic::if_ stubs=4 timeout=300 cutdrop=1 group=medium
     //@ desc="if over 3 operands: result (the deciding operand's value itself, or error/null) and the exact evaluation log (which operands, in which order, each at most once, against the outer data) equal the spec; an operand that is not needed has no effect even if it is invalid; the parser is applied to rule text only"
     lazy_harness!(k_c05_if_3_NNP, 3, 53, body_if);
     //@ob name=C05.if.4.NRNE harness=k_c05_if_4_NRNE props=C05,C04 tier=thorough strength=bounded bound="4 operands; outcome pattern NRNE (E=evaluation error, N=new value, R=raw value, P=does not parse); truthiness of every value symbolic" fns=op::logic::if_ stubs=4 timeout=300 cutdrop=1 group=medium
